@@ -341,6 +341,9 @@ def run(rep):
         s = show(rm.body)
         rep.check(s == "solver::solve(self.detection, document)", "TRI-VERDICT", "TRI-VERDICT/matches", rm.sp, "Rule::matches is solver::solve(&self.detection, document)", s)
 
+    # the optimised forms of and/or must keep the operand order the tables above depend on (shared with C01)
+    import core
+    core.import_rules(rep, "c01", {"ORDER-AND", "LAW"}, key_prefixes=("ORDER-AND/shake_0/", "LAW/shake_0/flatten", "LAW/shake_0/group-of-one", "LAW/or-symmetric"))
     rep.floor("TRI-OR", 2 * KMAX + 3)
     rep.floor("TRI-AND", 2 * KMAX + 3)
     rep.floor("TRI-ALL", 2 * KMAX)
